@@ -68,7 +68,12 @@ CLAIMED = {
        "view reads back to the entries per level as a multiset. The stronger readings (MOVED iff relative order changed; old order "
        "recoverable) are FALSE of the code: kernel-checked witnesses, recorded as findings F03a/F03b. Tie: make_diff/"
        "strip_unchanged and both text views (4 formatter shapes) vs the model on 4k (quick) generated rulebook/config cases; "
-       "oracle: projections, exact ops, self-diff, MOVED, and both texts read back, on the real outputs.",
+       "oracle: projections, exact ops, self-diff, MOVED, and both texts read back, on the real outputs."
+       " Several devices: Model/Collapse.lean = collapse_diffs (stable sort by (vendor, text), runs of equal text, first diff shown); "
+       "the groups partition the devices, and when no line is masked every device of a group has exactly the diff shown "
+       "(C03_collapse_faithful, by the text round trip); the masked snmp-cipher case is finding F03c. Glue kinds (harness/c03glue.py): "
+       "file mode through _read_old_new_diff_patch / file_diff_worker with shipped and generated rulebooks, collapse_diffs / "
+       "gen_sort_diff / Deployer.diff_lines over 2-7 devices, grouping compared with the Lean model (rb.collapse).",
   note=COMMON_NOTE + "standard diff logics only (vendor %diff_logic and %multiline out of scope by the property text); colours "
        "and show_rules of the annet-diff view are not modelled.",
   design="§5 C03", technique="Lean 4 proof (sorting/index invariants, mutual induction; parser/printer round trip for the text views) + differential correspondence"),
@@ -161,7 +166,10 @@ CLAIMED = {
        "subtree and position alone over whole command lists. The text reading of (a) is false of the code (kernel-checked witness, "
        "finding F02a); (b) needs the hypothesis that an uncovered row shares no slot with a command (finding F02b); %rewrite groups "
        "are re-sent as a whole (findings F02c, F02d). Tie: _diff_and_patch with acl_rules vs the model on 1.9k (quick) generated "
-       "rulebook/ACL/config cases; oracle: clauses (a)(b)(c) by executing the real patch on the device specification.",
+       "rulebook/ACL/config cases; oracle: clauses (a)(b)(c) by executing the real patch on the device specification."
+       " Glue kind (harness/c02glue.py): synthetic generators -> real gen._old_new_per_device -> real api._diff_and_patch, clauses "
+       "(a)(b)(c) against an ACL the harness combines itself (own dedent, own tagging, generators that do not take part); the "
+       "empty-allow-list and filter steps of _old_new_per_device are theorems of C10's model (C10_full_*).",
   note=COMMON_NOTE + "device specification as in C01; ACL/pattern models tied by C06/C07; no filter-ACL; common logics.",
   design="§5 C02", technique="Lean 4 proof (mutual induction over diff trees; device-level frame lemma) + differential correspondence + simulator oracle"),
  "C11": dict(
@@ -241,7 +249,11 @@ CLAIMED = {
        "the first uncovered line iff such a line exists; the exclusive filter raises iff a reached row has >=2 owners and names them; "
        "merge_dicts is union of paths, first-seen order, associative, idempotent; new = the filtered union. 'new == union' is false of "
        "the code when the merged ACL drops a line its own generator covers (C06 family) or a negated cant_delete line: kernel-checked "
-       "witnesses, 5 recorded findings. Tie: the real _old_new_per_device with synthetic PartialGenerators vs the model on 81k (quick) cases.",
+       "witnesses, 5 recorded findings. Tie: the real _old_new_per_device with synthetic PartialGenerators vs the model on 81k (quick) cases."
+       " With a device configuration, --no-acl and a filter ACL (aclSteps / oldNewFull): results are sub-trees, an empty allow-list "
+       "passes nothing, a requested filter without rules passes nothing, a filter only narrows, every passed path is covered by both "
+       "ACLs, --no-acl without a filter is the identity (kind=full: config text through --config -, filter through stdin / file / "
+       "Filterer stub, unsupported generators).",
   note=COMMON_NOTE + "ACL text parsing (valkit) executed; Cisco/ASR/Juniper/Nokia/RouterOS splitters, RefGenerators, JuniperList, annotations, "
        "perf/tracing not modelled; generator class names distinct.",
   design="§5 C10", technique="Lean 4 proof (layout/offside composition, merge algebra, ACL ownership) + differential correspondence through the real entry point"),
